@@ -94,3 +94,61 @@ package proxy
 //@   at-call Write: assert [payload-untouched] forall i int :: 0 <= i && i < len(arg1) ==> arg1[i] == old(p.Payload[i])
 //@   at-call Close as cl: assert arg0 == old(h.conn)
 //@   ensures [echo-then-close] called(echo) && called(cl)
+
+// ---- C18: keep-alive replies reach only the backend that asked, once ---------------------------------
+
+//@ guarded_by serverConnection.mu : pendingPings
+
+// Lookup and removal of a pending id happen in ONE exclusive critical section of the backend connection's lock:
+// of any number of concurrent consumers of an id at most one finds it.
+//@ func consumePendingKeepAlive
+//@   props C18
+//@   at-call Get as get: assert arg0 == serverConn.pendingPings && arg1 == randomID && held(serverConn.mu) == wlocked
+//@   at-call Delete as del: assert called(get) && res(get, 1) && arg0 == serverConn.pendingPings && arg1 == randomID && held(serverConn.mu) == wlocked
+//@   ensures [found-iff-pending] result.1 <==> (called(get) && res(get, 1))
+//@   ensures [consumed] result.1 ==> called(del) && result.0 == res(get, 0)
+
+//@ func recordBackendKeepAlive
+//@   props C18
+//@   at-call Set as set: assert arg0 == serverConn.pendingPings && arg1 == p.RandomID && held(serverConn.mu) == wlocked
+//@   ensures [recorded] called(set)
+
+// Forwarded only if this backend had the id pending, has a live connection and is in CONFIG or PLAY;
+// the reply counts as consumed (true) whenever the id was pending, even if it could not be forwarded.
+//@ func sendKeepAliveToBackend
+//@   props C18
+//@   at-call consumePendingKeepAlive as c: assert serverConn != nil && arg0 == serverConn && arg1 == p.RandomID
+//@   at-call conn as mc: assert arg0 == serverConn
+//@   at-call Closed as cl: assert arg0 == res(mc)
+//@   at-call State as stt: assert arg0 == res(mc)
+//@   at-call WritePacket as wp: assert [only-if-pending-and-ready] called(c) && res(c, 1) && !isnil(res(mc)) && called(cl) && !res(cl) && called(stt) && (res(stt) == state.Config || res(stt) == state.Play) && arg0 == res(mc) && ref(arg1) == p
+//@   ensures [no-backend] serverConn == nil ==> !result && !called(c) && !called(wp)
+//@   ensures [consumed-iff-pending] serverConn != nil ==> called(c) && (result <==> res(c, 1))
+//@   ensures [unmatched-dropped] !result ==> !called(wp)
+
+// The connected backend is asked first; the in-flight one only if the connected one did not have the id.
+//@ func forwardKeepAlive
+//@   props C18
+//@   at-call connectedServer as cs: assert arg0 == player
+//@   at-call sendKeepAliveToBackend#1 as s1: assert arg0 == res(cs) && arg1 == player && arg2 == p
+//@   at-call connectionInFlight as inf: assert called(s1) && !res(s1) && arg0 == player
+//@   at-call sendKeepAliveToBackend#2 as s2: assert called(s1) && !res(s1) && arg0 == res(inf) && arg1 == player && arg2 == p
+//@   ensures [connected-first] called(s1) && (res(s1) ==> !called(s2))
+
+// ---- C33: PROXY protocol headers only from trusted upstreams ------------------------------------------
+
+//@ func (*proxyProtocol).trustedNetworks
+//@   props C33
+//@   ensures [nil-trusts-nothing] p == nil ==> isnil(result)
+//@   ensures [configured] p != nil ==> result == p.trusted
+
+// USE exactly when the TCP peer's address is in the trusted networks, REJECT otherwise; a header timeout is always set.
+//@ func (*proxyProtocol).wrapConnTimeout
+//@   props C33
+//@   at-call trustedNetworks as tn: assert arg0 == p
+//@   at-call RemoteAddr as ra: assert arg0 == conn
+//@   at-call Contains as ct: assert arg0 == res(tn) && arg1 == res(ra)
+//@   at-call WithPolicy as wp: assert called(ct) && arg0 == ite(res(ct), proxyproto.USE, proxyproto.REJECT)
+//@   at-call SetReadHeaderTimeout as to: assert arg0 == readHeaderTimeout
+//@   at-call NewConn as nc: assert arg0 == conn && len(arg1) == 2 && arg1[0] == res(wp) && arg1[1] == res(to)
+//@   ensures [wrapped] called(nc) && ref(result) == res(nc)
